@@ -8,6 +8,7 @@ from vf.sim import install, registry
 from vf.spec import cdb as S
 
 ID = "C03"
+OPT_QUICK_ALL = True      # every partition also in a child interpreter started with -O
 LEVEL = "exploration"
 TECHNIQUE = "deviation-bounded exhaustive enumeration of constructor arguments x block sizes x ATA transfer rules; buffer lengths recomputed from the CDB by the independent spec decoder and each command handed to both stand-in transports"
 RULE = ("42 classes x offering tables x argument tuples with at most k deviations (k=1 quick, 2 thorough) x block sizes {1,512,520,4096} for "
